@@ -56,7 +56,7 @@ func (m *loader) Import(path string) (*types.Package, error) {
 		dir := filepath.Join(m.root, strings.TrimPrefix(path, coreMod))
 		pkgs, err := parser.ParseDir(m.fset, dir, func(fi os.FileInfo) bool {
 			n := fi.Name()
-			return !strings.HasSuffix(n, "_test.go") && !strings.HasSuffix(n, "_verif.go")
+			return !strings.HasSuffix(n, "_test.go") && !strings.HasSuffix(n, "_verif.go") && !strings.HasPrefix(n, "verif_")
 		}, parser.ParseComments)
 		if err != nil {
 			return nil, err
